@@ -172,6 +172,12 @@ class C14(Prop):
             exp = ",".join([tok("STRING", c), tok("EOF", "")])
             out.append(Case("lex", {"script": vlib.hx(src)}, "strings", expect={"tokens": exp},
                             nontrivial=("\\" in src or any(ord(ch) > 127 for ch in c))))
+        # U+0000 is a character like any other (known finding D45: the lexer uses it as its end-of-input mark)
+        for src, toks in [('"a\x00b"', [("STRING", "a\x00b")]), ("'\x00'", [("STRING", "\x00")]), ('"\x00\x00z" 1', [("STRING", "\x00\x00z"), ("INT", "1")]),
+                          ("x ~= /a\x00b/", [("IDENT", "x"), ("~=", "~="), ("REGEXP", "a\x00b")]), ("// c \x00 d\n1", [("INT", "1")]), ("1 // \x00", [("INT", "1")])]:
+            c = Case("lex", {"script": vlib.hx(src)}, "nul-character", expect={"tokens": ",".join([tok(t, l) for t, l in toks] + [tok("EOF", "")])}, note=repr(src))
+            c.tags.add("nul-character")
+            out.append(c)
         for _ in range(8000 if big else 600):
             src, lit = rand_regexp(rng)
             exp = ",".join([tok("REGEXP", lit), tok("EOF", "")])
@@ -280,5 +286,8 @@ class C14(Prop):
             if len(ts) > 1:
                 out.append((cs[0], "the same token sequence under different layouts of whitespace/comments gives different token streams"))
         return out
+
+    def in_class(self, klass, case):
+        return klass == "nul-character" and "nul-character" in case.tags
 
 PROP = C14()
